@@ -375,16 +375,24 @@ func (e *Engine) evalQuant(ctx *EvalCtx, x *Expr) (Val, error) {
 		rng := fmt.Sprintf("(and (<= %s %s) (< %s %s))", lo.S, bv, bv, hi.S)
 		// quantify over the absolute index of the first slice indexed by the bound variable, so that the
 		// solver can trigger on (select array k) without arithmetic in the pattern
+		orig := ""
 		if off, ok := sliceOffsetOf(body, bv); ok {
 			k := e.fresh("q.k")
-			body = strings.ReplaceAll(body, "(+ "+off+" "+bv+")", k)
+			nb := strings.ReplaceAll(body, "(+ "+off+" "+bv+")", k)
 			sub := "(- " + k + " " + off + ")"
-			body = replaceSym(body, bv, sub)
+			if containsSym(nb, bv) {
+				// the bound variable also occurs elsewhere (e.g. as an argument of a specification function):
+				// keep the original form as well so that both kinds of terms can trigger the quantifier
+				if q == "forall" {
+					orig = fmt.Sprintf("(forall ((%s Int)) (=> %s %s))", bv, rng, body)
+				}
+			}
+			body = replaceSym(nb, bv, sub)
 			rng = fmt.Sprintf("(and (<= (+ %s %s) %s) (< %s (+ %s %s)))", lo.S, off, k, k, hi.S, off)
 			bv = k
 		}
 		if q == "forall" {
-			return boolVal(fmt.Sprintf("(forall ((%s Int)) (=> %s %s))", bv, rng, body)), nil
+			return boolVal(sAnd(fmt.Sprintf("(forall ((%s Int)) (=> %s %s))", bv, rng, body), orig)), nil
 		}
 		return boolVal(fmt.Sprintf("(exists ((%s Int)) (and %s %s))", bv, rng, body)), nil
 	}
@@ -699,6 +707,29 @@ func (f *Frame) lookupName(ctx *EvalCtx, name string) (Val, bool) {
 	}
 	if ctx.onlyParams {
 		return Val{}, false
+	}
+	// address-taken variable: its storage holds the current content
+	for _, b := range f.fn.Blocks {
+		for _, in := range b.Instrs {
+			a, ok := in.(*ssa.Alloc)
+			if !ok || a.Comment != name {
+				continue
+			}
+			av, ok := f.vals[a]
+			if !ok {
+				continue
+			}
+			if ctx.at != nil && !(b == ctx.at || b.Dominates(ctx.at)) {
+				continue
+			}
+			if l := e.locOf(f, av); l != nil {
+				t := locType(l)
+				if l.Kind == LElem && l.Idx == "" && l.Note == "array" {
+					return Val{T: a.Type().(*types.Pointer).Elem(), S: fmt.Sprintf("(select %s %s)", e.getHeapA(ctx.st, e.sortOf(l.RootT)), l.Base)}, true
+				}
+				return Val{T: t, S: e.load(ctx.st, l)}, true
+			}
+		}
 	}
 	// DebugRef-based
 	refs := f.names[name]
